@@ -2,7 +2,7 @@
 // step of a lookup), helpers for C18/C20 (address votes), C06 (is_done).
 // `visited` and `public_address_votes` are the stand-ins of /verif/models (std tables are out of reach).
 use super::*;
-use crate::common::node::verif_kani::node_aged;
+use crate::common::verif_kani::node::node_aged;
 use crate::common::{FindNodeRequestArguments, ID_SIZE};
 
 pub(crate) fn id1(b: u8) -> Id {
